@@ -34,6 +34,14 @@ def build_harness():
         return PV
     t0 = time.time()
     env = dict(os.environ, CARGO_NET_OFFLINE="true")
+    alt = os.environ.get("VERIF_REPO")
+    if alt and alt != "/repo" and not ROOT.startswith("/verif"):
+        # experiments on a snapshot (vp run --with-repo): this copy of the harness depends on the repo snapshot, so
+        # that seeded changes can be applied there while /repo itself stays untouched.  Never done in /verif proper.
+        ct = os.path.join(ROOT, "harness", "Cargo.toml")
+        txt = open(ct).read()
+        if "/repo/prqlc" in txt:
+            open(ct, "w").write(txt.replace('"/repo/prqlc', '"' + alt.rstrip("/") + "/prqlc"))
     r = subprocess.run(["cargo", "build", "--offline"], cwd=os.path.join(ROOT, "harness"), env=env,
                        stdout=subprocess.PIPE, stderr=subprocess.STDOUT, text=True)
     if r.returncode != 0:
